@@ -170,6 +170,12 @@ func (s *AtomVisitor) ExitOC_PatternPredicate(ctx *parser.OC_PatternPredicateCon
 	s.Atom = s.ctx.Exit().(*PatternPredicateVisitor).PatternPredicate
 }
 
+// A shortest path pattern used as an expression (RETURN shortestPath(...)) has no representation in the query model.
+// Report it instead of letting the variables of its pattern overwrite the atom.
+func (s *AtomVisitor) EnterOC_ShortestPathPattern(ctx *parser.OC_ShortestPathPatternContext) {
+	s.newUnsupportedRuleError(ctx)
+}
+
 func (s *AtomVisitor) EnterOC_Quantifier(ctx *parser.OC_QuantifierContext) {
 	s.ctx.Enter(NewQuantifierVisitor(ctx))
 }
